@@ -7,12 +7,12 @@ CONSTANTS
   Windows = {1, 2}
   LeaderCandidates <- Leader2
   HeartbeatCandidates <- HbFirst
-  Proposable = {"Heartbeat", "Redemption"}
+  Proposable = {"Heartbeat"}
   SignableActions = {"Heartbeat"}
   LeaderFaults = {"silent", "disallowed"}
   FaultyWallets = {"w1"}
   Hazard = "none"
-  Loss = {"w1"}
+  Loss = {}
   Offline = FALSE
   SeedFailures = FALSE
   Slow = {}
